@@ -17,17 +17,17 @@ pub fn remove(&mut self, factor: &UBig) -> Option<usize>
 
         // shortcut for power of 2
         if factor.is_power_of_two() {
-            let bits = factor.trailing_zeros().unwrap();
             /*@ proof {
+                // for the multiplicities b of 2 in the factor and z in self (whatever the code calls them): see lemma_rm_pow2_case
                 let k = choose|k: int| k >= 0 && #[trigger] pow2(k) == f;
-                lemma_rm_pow2_tz(k, bits as int);
+                assert forall|b: int, z: int| #![trigger im_is_tz(f, b), im_is_tz(x0, z)] im_is_tz(f, b) && im_is_tz(x0, z)
+                    implies rm_pow2_ok(x0, f, b, z) by {
+                    lemma_rm_pow2_tz(k, b);
+                    lemma_rm_pow2_case(x0, f, b, z, z / b, x0 / pow2((z / b) * b));
+                }
             } @*/
+            let bits = factor.trailing_zeros().unwrap();
             let exp = self.trailing_zeros().unwrap() / bits;
-            /*@ proof {
-                assert(exists|z: usize| #[trigger] im_is_tz(x0, z as int) && exp == z / bits);
-                let z = choose|z: usize| #[trigger] im_is_tz(x0, z as int) && exp == z / bits;
-                lemma_rm_pow2_case(x0, f, bits as int, z as int, exp as int, x0 / pow2(exp as int * bits as int));
-            } @*/
             *self >>= exp * bits;
             return Some(exp);
         }
